@@ -182,6 +182,16 @@ fn collect_lines(span: &serde_json::Value, out: &mut Vec<u64>) {
 /// one `cargo check` of a scratch crate with one literal-macro invocation per line; `1` = compiled, `0` = rejected by
 /// the macro's `compile_error!`
 fn macro_batch(mac: &str, lits: &[String]) -> String {
+    // a failing *tool invocation* (cargo killed, lock time-out under load, scratch dir trouble) says nothing about the macros:
+    // such a result is retried twice before it is reported
+    let mut r = macro_batch_once(mac, lits);
+    for _ in 0..2 { if !r.starts_with("err:") { break; } std::thread::sleep(std::time::Duration::from_millis(500)); r = macro_batch_once(mac, lits); }
+    r
+}
+
+unsafe extern "C" { #[link_name = "flock"] fn libc_flock(fd: i32, op: i32) -> i32; }
+
+fn macro_batch_once(mac: &str, lits: &[String]) -> String {
     let dir = match tempfile::Builder::new().prefix("c09-lit-").tempdir() { Ok(d) => d, Err(_) => return "err:tempdir".into() };
     let root = dir.path();
     let lock = std::env::var("CARGO_MANIFEST_DIR").map(|d| format!("{d}/Cargo.lock")).unwrap_or_else(|_| "/verif/harness/Cargo.lock".into());
@@ -193,9 +203,21 @@ fn macro_batch(mac: &str, lits: &[String]) -> String {
     let ok = std::fs::create_dir_all(root.join("src")).is_ok()
         && std::fs::write(root.join("Cargo.toml"), "[package]\nname = \"c09lit\"\nversion = \"0.0.0\"\nedition = \"2021\"\npublish = false\n[workspace]\n[dependencies]\nlibcnb-data = { path = \"/repo/libcnb-data\" }\n").is_ok()
         && std::fs::copy(&lock, root.join("Cargo.lock")).is_ok()
-        && std::fs::write(root.join("src/main.rs"), src).is_ok();
+        && std::fs::write(root.join("src/main.rs"), &src).is_ok();
+    let src2 = src;
     if !ok { return "err:scratch".into(); }
     let target = std::env::var("VERIF_C09_TARGET").unwrap_or_else(|_| "/verif/harness/target/c09-lit".into());
+    // All scratch crates share one cargo unit (cargo hashes a workspace root's path as ""), and cargo decides freshness by
+    // comparing src/main.rs's mtime with the previous batch's dep-info: a batch whose source was written *before* an
+    // earlier batch finished would be taken as fresh and inherit that batch's (possibly all-valid) result. So writing the
+    // source and checking it is one critical section (across threads and processes), and the source is written inside it.
+    static BATCH: std::sync::Mutex<()> = std::sync::Mutex::new(());
+    let _guard = BATCH.lock().unwrap_or_else(|e| e.into_inner());
+    let _ = std::fs::create_dir_all(&target);
+    let lockfile = std::fs::OpenOptions::new().create(true).write(true).open(format!("{target}/.batch.lock")).ok();
+    if let Some(f) = &lockfile { use std::os::fd::AsRawFd; unsafe { libc_flock(f.as_raw_fd(), 2); } }
+    std::thread::sleep(std::time::Duration::from_millis(5));
+    if std::fs::write(root.join("src/main.rs"), &src2).is_err() { return "err:scratch".into(); }
     let out = std::process::Command::new("cargo").args(["check", "--offline", "--quiet", "--message-format=json"]).current_dir(root)
         .env("CARGO_TARGET_DIR", &target).env("CARGO_NET_OFFLINE", "true").env_remove("RUSTFLAGS").output();
     let Ok(out) = out else { return "err:cargo-spawn".into() };
